@@ -58,6 +58,7 @@ const (
 	opModifyCfg            // modify a Config value after it was used by Parse (C19)
 	opParseKept            // Parse with a long-lived Config value (C19)
 	opCustom               // property-specific operation (closure)
+	opEditDoc              // the caller edits one of its own documents in place (member renamed, element replaced)
 )
 
 // Op is one planned operation.
@@ -83,7 +84,7 @@ type Op struct {
 }
 
 func (o *Op) String() string {
-	k := [...]string{"Parse", "Call", "CallShared", "Retrieve", "Scribble", "Append", "ParseFail", "ParseInject", "Publish", "CallPublished", "ModifyCfg", "ParseKept", "Eval"}[o.Kind]
+	k := [...]string{"Parse", "Call", "CallShared", "Retrieve", "Scribble", "Append", "ParseFail", "ParseInject", "Publish", "CallPublished", "ModifyCfg", "ParseKept", "Eval", "EditDoc"}[o.Kind]
 	s := k
 	if o.Path != nil {
 		s += " path=" + fmt.Sprintf("%q", o.Path.Text) + " " + o.Cfg.String()
@@ -132,19 +133,25 @@ type Doc struct {
 func newDoc(v interface{}) *Doc { return &Doc{Val: v, Snap: canon(v)} }
 
 type keptResult struct {
-	res   []interface{}
-	canon string
-	op    int
+	res    []interface{}
+	canon  string
+	op     int
+	docIDs map[uintptr]bool // the containers of the caller's documents when the result was returned
 }
 
 // sigOf renders a kept result: identity for scalars and containers of the task's documents,
 // content for containers that user functions produced.
-func (w *World) sigOf(t *Task, res []interface{}) string {
+func (w *World) docIDs(t *Task) map[uintptr]bool {
 	docs := t.docs
 	if docs == nil {
 		docs = w.docs
 	}
-	return resultSig(res, containerIDs(docs))
+	return containerIDs(docs)
+}
+
+func (w *World) keep(t *Task, res []interface{}, idx int) {
+	ids := w.docIDs(t)
+	t.results = append(t.results, &keptResult{res: res, canon: resultSig(res, ids), op: idx, docIDs: ids})
 }
 
 // Task is one simulated caller.
@@ -351,7 +358,7 @@ func (w *World) checkDocs(t *Task, o *Op) {
 
 func (w *World) checkOldResults(t *Task, o *Op) {
 	for i, k := range t.results {
-		if got := w.sigOf(t, k.res); got != k.canon {
+		if got := resultSig(k.res, k.docIDs); got != k.canon {
 			t.fail(w.prop+":earlier-result-changed", pathKey(t.ops[k.op]),
 				fmt.Sprintf("result %d (returned by op %d: %v) changed after %v:\n  was %s\n  now %s", i, k.op, t.ops[k.op], o, clip(k.canon, 300), clip(got, 300)))
 			return
@@ -419,7 +426,7 @@ func (w *World) execOp(t *Task, idx int) {
 			return
 		}
 		if res != nil && w.checkOld {
-			t.results = append(t.results, &keptResult{res: res, canon: w.sigOf(t, res), op: idx})
+			w.keep(t, res, idx)
 		}
 		if !judge || !w.judgeOutcome {
 			return
@@ -498,7 +505,7 @@ func (w *World) execOp(t *Task, idx int) {
 		res, out := safeRetrieve(o.Path.Text, d.Val, cfgArgs(o.Cfg))
 		o.Got, o.GotLog, o.Done = out, t.rec.log(), true
 		if res != nil && w.checkOld && simrt.Aborted() == 0 {
-			t.results = append(t.results, &keptResult{res: res, canon: w.sigOf(t, res), op: idx})
+			w.keep(t, res, idx)
 		}
 		if w.judgeOutcome && simrt.Aborted() == 0 {
 			if w.refInline && o.RefFn != nil {
@@ -516,13 +523,21 @@ func (w *World) execOp(t *Task, idx int) {
 	case opCustom:
 		o.Do(t, o)
 		o.Done = true
+	case opEditDoc:
+		if t.docs != nil {
+			d := t.docs[o.Doc%len(t.docs)]
+			editInPlace(d.Val, o.Arg)
+			d.Snap = canon(d.Val) // the caller's own edit is the new baseline
+			t.probe("caller-edited-its-document-in-place")
+		}
+		o.Got, o.Done = "ok", true
 	case opScribble:
 		if len(t.results) > 0 {
 			k := t.results[o.Arg%len(t.results)]
 			for i := range k.res {
 				k.res[i] = fmt.Sprintf("SCRIBBLE-%d-%d", t.id, i)
 			}
-			k.canon = w.sigOf(t, k.res)
+			k.canon = resultSig(k.res, k.docIDs)
 			t.probe("caller-scribbled-over-earlier-result")
 		}
 		o.Got, o.Done = "ok", true
@@ -530,7 +545,7 @@ func (w *World) execOp(t *Task, idx int) {
 		if len(t.results) > 0 {
 			k := t.results[o.Arg%len(t.results)]
 			k.res = append(k.res, "APPENDED", "APPENDED2")
-			k.canon = w.sigOf(t, k.res)
+			k.canon = resultSig(k.res, k.docIDs)
 			t.probe("caller-appended-to-earlier-result")
 		}
 		o.Got, o.Done = "ok", true
